@@ -76,13 +76,21 @@ def run(ck):
                 kw['fixed_vector'] = torch.tensor(rng.standard_normal(d).astype(np.float32))
         if method == 'random_global_agop':
             tree_iters = [1, 2][(i // 10) % 2]                 # the held tree is a copy of the best of 1 + tree_iters builds
+        forced = (i % 11 == 7)
+        if forced:
+            # an overlap band that takes almost the whole node (f close to 1/2 on a small node, reachable through a requested number of splits): the right child has no
+            # sample of its own, the left child one — every sample still lands in a leaf that received it
+            n = int(rng.integers(9, 16)); L = 10_000; f = [0.45, 0.4, 0.45][(i // 11) % 3]; n = n if f == 0.45 else int(rng.integers(5, 8))
+            X = xr.make_X('distinct_grid' if exact else 'random', n, d, rng); kw['number_of_splits'] = [1, 2][(i // 11) % 2]; tree_iters = 0
+            if method == 'random_global_agop':
+                method = 'pca'
         y = xr.make_y('reg', X, rng)
         nv = int(rng.integers(5, 60))
         Xv = xr.make_X('distinct_grid' if exact else 'random', nv, d, rng)
         if not exact and i % 5 == 3:
             Xv = (Xv * np.float32(1e-5)).astype(np.float32)
         yv = xr.make_y('reg', Xv, rng)
-        desc = dict(i=i, n=n, L=L, d=d, f=f, method=method, exact=exact, tree_iters=tree_iters, small_magnitude=bool((not exact) and i % 5 == 3), seed=ck.seed)
+        desc = dict(i=i, n=n, L=L, d=d, f=f, method=method, exact=exact, tree_iters=tree_iters, small_magnitude=bool((not exact) and i % 5 == 3), forced_splits=kw.get('number_of_splits'), seed=ck.seed)
         xr.seed_all(8000 + i + ck.seed)
         model = xr.xRFM(rfm_params=xr.default_rfm_params(iters=(1 if tree_iters else 0), reg=1e-2), max_leaf_size=L, split_method=method,
                         overlap_fraction=f, verbose=False, use_temperature_tuning=False, refill_size=10, n_tree_iters=tree_iters, **kw)
